@@ -2,6 +2,7 @@ import LibInj.Proofs.XssTotal
 import LibInj.Proofs.TokenizeOK
 import LibInj.Proofs.WhitelistOK
 import LibInj.Properties.C01
+import LibInj.Proofs.CoreCost
 /-! # C09 — both detectors run in time linear in the input length
 
 What a model can carry: **the number of loop iterations and of tokens is linear in `|s|`**. Every
@@ -18,6 +19,11 @@ totality theorems show the fuel is never exhausted:
 * `closing_quote_iterations_linear` — the closing-quote search performs at most `|content|+1`
   `IndexByte` jumps (after the repair of the quadratic re-scan it is an invariant that the scan offset
   only moves forward: `coreLoop` recurses on `q+1`/`q+2` with `q >= k`);
+* `string_scanner_work_linear` — **a cost model of the function the property names**: `coreLoopW` is `coreLoop`
+  with a counter for the bytes examined (`IndexByte` up to and including the delimiter it finds, the backslashes
+  immediately before it and the byte that ends their run, the byte after it for the doubled-delimiter test); it
+  computes the same closing quote and examines at most `3·|content| + 3` bytes, for every content and delimiter —
+  the search only moves forward (D4) and the backslash run it counts lies inside the segment just crossed (D5);
 * `html_steps_linear` — from every context the HTML5 machine emits at most `3|s|+3` tokens and every
   emitting step strictly decreases `3·(bytes left) + rank(state)`;
 * `decoder_steps_linear` — the character-reference decoder consumes at least one byte per call, so
@@ -76,6 +82,15 @@ theorem sqli_all_loops_linear (s : Bytes) : ∃ r, isSQLi s = .ok r :=
 
 theorem closing_quote_iterations_linear (content : Bytes) (d : UInt8) (hd : d ≠ 92) :
     ∃ r, coreLoop content d 0 (content.length + 1) = .ok r := ⟨_, coreLoop_spec content d hd⟩
+
+/-- the closing-quote search of `parseStringCore`, with its work counted: same result, at most `3·|content|+3` bytes examined -/
+theorem string_scanner_work_linear (content : Bytes) (d : UInt8) (hd : d ≠ 92) :
+    ∃ r, coreLoopW content d 0 (content.length + 1) = .ok r ∧ r.1 = Spec.closingQuote content d ∧ r.2 ≤ 3 * content.length + 3 :=
+  coreLoopW_linear content d hd
+
+/-- non-vacuity: on `\'\'\'x'` (three escaped quotes, then the closing one) the counter stays within the bound -/
+example : (match coreLoopW [92, 39, 92, 39, 92, 39, 120, 39] 39 0 9 with | .ok (some 7, w) => decide (w ≤ 27) | _ => false) = true := by
+  decide
 
 theorem html_steps_linear (s : Bytes) (ctx : Nat) :
     ∃ ts, tokens s ctx = .ok ts ∧ ts.length ≤ 3 * s.length + 3 := by
